@@ -4,6 +4,7 @@ mod util;
 mod txm;
 mod sh;
 mod mvcc;
+mod wal;
 mod val;
 
 fn main() {
@@ -17,6 +18,7 @@ fn main() {
         "txm" => txm::main(&opts),
         "sh" => sh::main(&opts),
         "mvcc" => mvcc::main(&opts),
+        "wal" => wal::main(&opts),
         _ => {
             eprintln!("unknown subcommand {cmd}");
             2
